@@ -271,6 +271,7 @@ func c05JudgeFile(c *fw.Ctx, kind string, x []byte, limit uint32, dir string) {
 	}
 }
 
+// (limits beyond the input length and structural sizes 4096 / 8192 / 64 KiB / 1 MiB are added for long inputs)
 func c05Limits(c *fw.Ctx, n int) []uint32 {
 	ls := []uint32{0, 1, uint32(n), uint32(n + 1), 3072, uint32(c.Rand.Intn(n + 3))}
 	if n > 0 {
@@ -284,6 +285,13 @@ var c05Chunks = []int{1, 2, 3, 7, 512, 0, -1, -2}
 func c05Inputs() [][]byte {
 	ins := append([][]byte{}, lib.Seeds()...)
 	ins = append(ins, gen.TextTails()[:40]...)
+	// inputs longer than 4 KiB / 64 KiB (progressive reads, second read phases)
+	big := []byte("[")
+	for len(big) < 12000 {
+		big = append(big, `{"k":[1,2,3],"s":"some text"},`...)
+	}
+	ins = append(ins, append(big, "1]"...), bytes.Repeat([]byte("alpha,beta,gamma\n"), 1200), bytes.Repeat([]byte("plain text line\n"), 600),
+		append(append([]byte{}, lib.Seeds()[0]...), make([]byte, 15000)...), bytes.Repeat([]byte("seventy kilobytes of text. "), 2700))
 	ins = append(ins, []byte("a,b\n1,2\n3,4\n"), []byte("{\"a\":1}\n{\"b\":2}\n"), []byte(`{"type":"Feature","x":[1,2,3]}`), []byte("<html><meta charset=latin1>caf\xe9"))
 	return ins
 }
@@ -396,10 +404,14 @@ func c05Run(c *fw.Ctx, b fw.Batch) {
 		lo, hi := split(len(ins), b.Idx, b.Of)
 		for rep := 0; rep < b.N; rep++ {
 			for _, x := range ins[lo:hi] {
-				if len(x) > 4000 {
-					x = x[:4000]
+				if len(x) > 80000 {
+					x = x[:80000]
 				}
-				for _, lim := range c05Limits(c, len(x)) {
+				lims := c05Limits(c, len(x))
+				if len(x) > 4096 {
+					lims = append(lims, 4096, 4097, 8192, 1<<16, 1<<20)
+				}
+				for _, lim := range lims {
 					hdr := len(lib.Header(x, lim))
 					step := 1
 					if hdr > 600 {
@@ -432,6 +444,23 @@ func c05Run(c *fw.Ctx, b fw.Batch) {
 				c05JudgeFile(c, "file", x, lim, dir)
 			}
 		}
+		// procfs: regular files that report size 0 but have content
+		for _, pf := range []string{"/proc/version", "/proc/filesystems", "/proc/cmdline", "/proc/self/cmdline", "/proc/self/comm"} {
+			content, err := os.ReadFile(pf)
+			if err != nil || len(content) == 0 {
+				continue
+			}
+			for _, lim := range []uint32{0, 16, 3072, 1 << 20} {
+				want := lib.ChainOf(lib.Detect(content, lim)).String()
+				mimetype.SetLimit(lim)
+				m, derr := mimetype.DetectFile(pf)
+				c.Eval(1)
+				c.Count("procfs_files_detected", 1)
+				if derr != nil || lib.ChainOf(m).String() != want {
+					c.Violate("entry-points-disagree", fw.InputKey(content, lim, "DetectFile/"+pf), fmt.Sprintf("DetectFile(%s) gives (%s, %v), Detect on its %d bytes gives %s (limit %d; stat reports size 0)", pf, lib.ChainOf(m), derr, len(content), want, lim), c05Payload{Kind: "procfs:" + pf, In: content, Limit: lim, Entry: "DetectFileProc"})
+				}
+			}
+		}
 		for _, lim := range []uint32{0, 1, 3072} {
 			c05JudgeFile(c, "file", nil, lim, dir)
 			c05JudgeFile(c, "file-missing", nil, lim, dir)
@@ -446,7 +475,7 @@ func init() {
 	fw.Register(&fw.Prop{
 		ID:    "C05",
 		Level: "fault_enumeration",
-		Rule: "inputs = every seed + text tails + small text documents; limits {0, 1, len-1, len, len+1, 3072, random}; chunk schedules {1, 2, 3, 7, 512, as-asked, random 1-9, random 1-2000} with occasional (0, nil) reads and data returned together with io.EOF; a preceding DetectReader under a different limit (state left behind); a sentinel error injected at EVERY offset 0..min(len, limit) for headers <= 600 bytes (every k-th and the last 4 offsets beyond), returned alone or together with the last bytes before it; the standard library's concrete readers (bytes.Buffer, bytes.Reader, strings.Reader, bufio.Reader, io.LimitReader, io.MultiReader, iotest one-byte / half / data-with-error readers) with their consumption checked; DetectFile over temp files for every input and limit, an empty file, a missing path, a directory (EISDIR) and /proc/self/mem (read error). The instrumented reader records bytes handed out, calls, and when the sentinel was really returned; expectations are derived from those observations. " +
+		Rule: "inputs = every seed + text tails + small text documents; limits {0, 1, len-1, len, len+1, 3072, random}; chunk schedules {1, 2, 3, 7, 512, as-asked, random 1-9, random 1-2000} with occasional (0, nil) reads and data returned together with io.EOF; a preceding DetectReader under a different limit (state left behind); a sentinel error injected at EVERY offset 0..min(len, limit) for headers <= 600 bytes (every k-th and the last 4 offsets beyond), returned alone or together with the last bytes before it; the standard library's concrete readers (bytes.Buffer, bytes.Reader, strings.Reader, bufio.Reader, io.LimitReader, io.MultiReader, iotest one-byte / half / data-with-error readers) with their consumption checked; DetectFile over temp files for every input and limit, an empty file, procfs files (regular files whose stat size is 0), a missing path, a directory (EISDIR) and /proc/self/mem (read error). The instrumented reader records bytes handed out, calls, and when the sentinel was really returned; expectations are derived from those observations. " +
 			"non-trivial = a short-read schedule or an injected fault actually occurred before the header was complete; distinct = distinct (chunk kind, zero reads, EOF-with-data, limit class, error offset class, error-with-data, previous-limit differs, outcome).",
 		Assumptions: []string{
 			"only conforming readers: never n > len(p), never endless (0, nil)",
@@ -472,6 +501,10 @@ func init() {
 			var p c05Payload
 			if err := stdjson.Unmarshal(payload, &p); err != nil {
 				fmt.Println("bad payload:", err)
+				return
+			}
+			if p.Entry == "DetectFileProc" {
+				c05Run(c, fw.Batch{Kind: "files", Idx: 0, Of: 1000})
 				return
 			}
 			if p.Entry == "DetectFile" {
